@@ -36,6 +36,8 @@ def run(ctx):
             ("cipherstate::CipherState::decrypt", 3, {"CipherState::decrypt_ad"}),
             ("cipherstate::StatelessCipherState::decrypt", 4, {"StatelessCipherState::decrypt_ad"}),
             ("symmetricstate::SymmetricState::decrypt_and_mix_hash", 3, {"CipherState::decrypt_ad", "copy_from_slice"}),
+            ("handshakestate::HandshakeState::_read_message", 3, {"SymmetricState::decrypt_and_mix_hash"}),
+            ("handshakestate::HandshakeState::read_message", 3, {"HandshakeState::_read_message"}),
             ("transportstate::TransportState::read_message", 3, {"CipherState::decrypt"}),
             ("stateless_transportstate::StatelessTransportState::read_message", 4, {"StatelessCipherState::decrypt"}),
         ):
@@ -64,4 +66,7 @@ def run(ctx):
                         evs = [e for e in actual_events(ctx, cfg, fn, {"copy_from_slice"}) if e[0] == "call" and e[4] == bi]
                         if not evs or evs[0][3] != {"has_key": False} or evs[0][2][1] != ("param", 2):
                             bad.append("copy_from_slice of %s under %s" % (evs[0][2][1] if evs else "?", evs[0][3] if evs else "?"))
+            if name.endswith("HandshakeState::_read_message") and n != 1:
+                # exactly one decrypt may target the caller's buffer: the payload itself, last; key fields decrypt into the session
+                bad.append("%d calls write into the payload buffer (only the final payload decryption may)" % n)
             ctx.ob("out-writers", short(fn.path), not bad and n >= 1, "the output buffer is written only through %s" % sorted(allowed) if not bad and n >= 1 else "output buffer also written by %s" % bad, where(fn), cfg)
